@@ -89,6 +89,10 @@ def gen(ctx):
             cases.append(["fio rw %s %s" % (hx(rb(r.choice([0, 1, 10, 4096, 70000]), range(256))), hx(rb(r.choice([0, 1, 10, 5000]), range(256))))])
     for k in ("full-short", "full-long", "missing", "dir", "wdir"):
         cases.append(["fio fault " + k])
+    # the file shrinks between the size sample and the read (to nothing, by one byte, across the stdio buffer size)
+    for frm, to in [(1, 0), (10, 9), (5000, 1234), (5000, 0), (4096, 4095), (4097, 4096), (70000, 65536), (70000, 69999)] + \
+                   [(n, r.randrange(n)) for n in (r.randrange(1, 100000) for _ in range(4 if quick else 60))]:
+        cases.append(["fio fault shrunk-%d-%d" % (frm, to)])
     return cases
 
 
